@@ -560,7 +560,9 @@ def compile (st : State) : Op → Option (List Micro)
   -- Map / MultiMap
   | .mInsert c k x => guard' (c.v ≤ 1 && (c.k = .M || c.k = .U)) [.put c none (some (.ext k)) (some (.ext x))]
   | .mInsertHint c pos k x =>
-    guard' (c.v ≤ 1 && c.k = .M && pos ≤ len st c) [.put c none (some (.ext k)) (some (.ext x))]
+    -- MultiMap: only with a key not yet present (inside a run of equal keys the position depends on the tree shape)
+    guard' (c.v ≤ 1 && (c.k = .M || (c.k = .U && (findField st 0 k (st.nodes c).items).isNone)) && pos ≤ len st c)
+      [.put c none (some (.ext k)) (some (.ext x))]
   | .mInsertRef c k i =>
     guard' (c.v ≤ 1 && (c.k = .M || c.k = .U) && i < len st c) [.put c none (some (.ext k)) (some (.item c i 1))]
   | .mInsertMap c w =>
